@@ -34,6 +34,8 @@ RULE = ("case = a grid cell (format in A/AP/PM/{'action'}/{'action_prob'}/{'pmf'
         "per-row answer has two elements, or the batch is square (batch size == answer width), or the actions contain 0/1; "
         "distinct = distinct canonical JSON of the case")
 ASSUMPTIONS = [
+    "PMFs are the uniform one, sixteenths, weights normalised once (sum 1 only up to rounding) or masses rounded to four decimals (sum within SafeLearner's own acceptance tolerance of .001, checked in possible_pmf); the reported probability must equal the stated mass bit for bit in all of them",
+    "batched calls without contexts pass context=None for the whole batch (what the evaluators do for environments without 'context'); the double then gives every row the same answer, since it cannot tell rows apart",
     "while HINTED_COL_KWARGS_DICT_ONLY is set (open defect, proposed_fixes/C15/0003) the column-major dict-hinted layout is only generated with dict/OrderedDict kwargs; every other layout gets all five Mapping types",
     "kwargs payloads are returned as dict, types.MappingProxyType, collections.ChainMap, collections.OrderedDict or a user-defined collections.abc.Mapping (the hint wrapper itself is always a plain dict); learn is expected to receive their items as keyword arguments",
     "a double that handles batches must be called once per batch with the batched arguments (plus at most SafeLearner's one-row layout probe after the first call); half of them are batch-only and raise on an un-batched row",
@@ -130,7 +132,7 @@ def action_set(atype, n, nx):
     return acts
 
 def pmf_for(n, nx, choice):
-    """masses summing to one exactly (sixteenths) or the uniform pmf; zero masses occur; `choice` is unused for pmfs"""
+    """the uniform pmf, sixteenths (exact sum), or masses whose sum is 1 only approximately; zero masses occur"""
     if nx(4) == 0:
         return [1 / n] * n
     left, out = 16, []
@@ -140,6 +142,14 @@ def pmf_for(n, nx, choice):
     out.append(left)
     rot = nx(n)
     out = out[rot:] + out[:rot]
+    # half of these are re-expressed so that the masses do NOT add up to exactly 1.0 in floating point (what real learners
+    # return); the selector is computed from the weights themselves so that no further integer is used up
+    sel = (sum((i + 1) * m for i, m in enumerate(out)) + rot) % 4
+    if sel == 2:      # arbitrary weights normalised once: the sum is 1 only up to rounding (zero masses stay zero)
+        w = [m * (i + 3) for i, m in enumerate(out)]
+        return [x / sum(w) for x in w]
+    if sel == 3:      # masses rounded to four decimals: the sum is off by up to a few 1e-4, inside SafeLearner's .001 tolerance
+        return [round(m / 16 * 0.9999, 4) for m in out]
     return [m / 16 for m in out]
 
 def context_for(kind, rid):
@@ -157,8 +167,7 @@ def build(case):
     b = 1 if shape == "single" else cell["b"]
     ncalls = cell.get("calls", 3)
     ctxkind = CTXKINDS[nx(len(CTXKINDS))]
-    if shape != "single" and ctxkind == "none":
-        ctxkind = "int"       # answers of batched doubles are keyed by the context (see FmtLearner)
+    no_ctx = shape != "single" and ctxkind == "none"     # a batched environment without contexts: context=None for the whole batch
     keys = KWKEYS[nx(len(KWKEYS))] if cell["kw"] else None
     vary = nx(2) == 1         # action sets change from row to row / call to call
     base = action_set(atype, n, nx)
@@ -174,6 +183,12 @@ def build(case):
                    "reward": nx(7) / 4}
             rows.append(row); rid += 1
         calls.append(rows)
+    if no_ctx:
+        # without a context the double cannot tell rows apart: it gives every row the same answer (see FmtLearner._plan)
+        first = calls[0][0]
+        for call in calls:
+            for row in call:
+                for k in ("choice", "p", "pmf", "kw"): row[k] = copy.deepcopy(first[k])
     seed = 1 + nx(1000)
     return {"calls": calls, "seed": seed, "ctxkind": ctxkind, "kwtype": KWTYPES[nx(len(KWTYPES))], "batch_only": nx(2) == 1}
 
@@ -207,6 +222,8 @@ class FmtLearner:
     def _plan(self, ctx):
         if self.by_ctx is not None:
             return self.by_ctx[repr(ctx)]
+        if self.cell["shape"] != "single":
+            return self.seq[0]          # batched calls without contexts: one answer for every row
         row = self.seq[self.counter % len(self.seq)]
         self.counter += 1
         return row
@@ -225,7 +242,8 @@ class FmtLearner:
         batched = is_batch(context) or is_batch(actions)
         if batched and not self.batch_ok:
             raise NoBatch("this learner does not understand batches")
-        self.pcalls.append(len(context) if batched else None)
+        nrows = (len(actions) if is_batch(actions) else len(context)) if batched else None
+        self.pcalls.append(nrows)
         if not batched:
             if self.batch_only: raise NoRows("this learner only understands batches")
             fmt, a, p, pmf, kw = self._piece(context, actions)
@@ -234,7 +252,8 @@ class FmtLearner:
             if kw is None: return core
             if fmt == "AP": return (a, p, kw)
             return (core, kw)
-        pieces = [self._piece(x, A) for x, A in zip(context, actions)]
+        ctxs = list(context) if is_batch(context) else [context] * nrows     # no contexts: None for the whole batch
+        pieces = [self._piece(x, A) for x, A in zip(ctxs, actions)]
         fmt = pieces[0][0]
         kws = [pc[4] for pc in pieces]
         has_kw = kws[0] is not None
@@ -266,11 +285,12 @@ class FmtLearner:
         if is_batch(context) or is_batch(action) or is_batch(reward):
             if not self.batch_ok:
                 raise NoBatch("this learner does not understand batches")
-            self.lcalls.append(len(context))
-            nrows = len(context)
+            nrows = len(reward)
+            self.lcalls.append(nrows)
+            ctxs = list(context) if is_batch(context) else [context] * nrows
             probs = list(probability) if probability is not None else [None] * nrows
             for i in range(nrows):
-                self.learned.append((context[i], action[i], reward[i], probs[i], {k: v[i] for k, v in kwargs.items()}))
+                self.learned.append((ctxs[i], action[i], reward[i], probs[i], {k: v[i] for k, v in kwargs.items()}))
         else:
             self.lcalls.append(None)
             if self.batch_only: raise NoRows("this learner only understands batches")
@@ -291,7 +311,7 @@ def pre_use(inner, cell, call, times):
         acts = [copy.deepcopy(r["actions"]) for r in call]
         ctxs = [copy.deepcopy(r["ctx"]) for r in call]
         if cell["shape"] == "single": inner.predict(ctxs[0], acts[0])
-        else: inner.predict(Batch.List(ctxs), Batch.List(acts))
+        else: inner.predict(Batch.List(ctxs) if any(c is not None for c in ctxs) else None, Batch.List(acts))
 
 def wrapped(learner, cell, plan, wrap):
     """what evaluators may be handed: an already wrapped, possibly already used SafeLearner"""
@@ -317,7 +337,8 @@ def drive(case, plan, batch_ok, seed, shape=None, wrap=None):
             got = [(a, p, kw)]
             safe.learn(ctxs[0], a, rwds[0], p, **kw)
         else:
-            X, A = Batch.List(ctxs), Batch.List(acts)
+            # an environment without contexts: the evaluators pass a plain None for the whole batch
+            X, A = (Batch.List(ctxs) if plan["ctxkind"] != "none" else None), Batch.List(acts)
             pa, pp, pk = safe.predict(X, A)
             require(pk is not None and hasattr(pk, "items"), "batched predict must return a kwargs mapping", kwargs=pk)
             nb = len(call)
